@@ -355,6 +355,7 @@ def loop_explore(ctx: Ctx, names: list, which: set, bound: int, cap: int) -> dic
     for level in range(bound + 1):
         results = pmap_tagged(loop_run, frontier, chunk=2)
         nxt = []
+        deviating: list = []
         for task, r in zip(frontier, results):
             agg["executions"] += 1
             agg["horizon"] += r["horizon"]
@@ -370,28 +371,55 @@ def loop_explore(ctx: Ctx, names: list, which: set, bound: int, cap: int) -> dic
                 if pid == ctx.pid:
                     ctx.violation(tag(case, "mc.evo", "loop_run", task))
             if level < bound:
-                pre = task[1]
-                for i in range(len(pre), len(r["points"])):
-                    for alt in range(r["points"][i]):
-                        if alt != r["defaults"][i]:
-                            nxt.append((r["name"], r["choices"][:i] + [alt], which, r["policy"]))
-        if len(nxt) > cap:
-            agg["capped"] += len(nxt) - cap
+                deviating.append((len(task[1]), r))
+        # deviations of this level's executions = next level's prefixes.  They are COUNTED first and only the ones that will
+        # be run are materialised (a level can have tens of millions of them; building them all exhausted the memory)
+        def candidates(group):
+            for pre_len, r in group:
+                pts, dfl = r["points"], r["defaults"]
+                for i in range(pre_len, len(pts)):
+                    for alt in range(pts[i]):
+                        if alt != dfl[i]:
+                            yield r, i, alt
+
+        def count(group):
+            return sum(pts_i - 1 for pre_len, r in group for pts_i in r["points"][pre_len:] if pts_i > 1)
+
+        def pick(group, positions):
+            """materialise the candidates at the given (sorted) positions of the group's enumeration order"""
+            out, want, k = [], iter(positions), 0
+            nxt_pos = next(want, None)
+            for r, i, alt in candidates(group):
+                if nxt_pos is None:
+                    break
+                if k == nxt_pos:
+                    out.append((r["name"], r["choices"][:i] + [alt], which, r["policy"]))
+                    nxt_pos = next(want, None)
+                k += 1
+            return out
+
+        def spread_positions(n: int, k: int) -> list:
+            if k <= 0:
+                return []
+            if n <= k:
+                return list(range(n))
+            step = n / k
+            return sorted({int(j * step) for j in range(k)})
+
+        rot = [d for d in deviating if d[1]["policy"] == "rot"]
+        zero = [d for d in deviating if d[1]["policy"] != "rot"]
+        n_rot, n_zero = count(rot), count(zero)
+        total = n_rot + n_zero
+        if total > cap:
             # keep a deterministic subset and say so: the varied base execution ("rot") first, then an
             # evenly spread subset of the deviations of the degenerate all-defaults execution
-            rot = [t for t in nxt if t[3] == "rot"]
-            zero = [t for t in nxt if t[3] != "rot"]
-
-            def spread(lst: list, k: int) -> list:
-                if k <= 0:
-                    return []
-                if len(lst) <= k:
-                    return lst
-                step = len(lst) / k
-                return [lst[int(i * step)] for i in range(k)]
-
-            keep_rot = spread(rot, min(len(rot), max(cap * 2 // 3, cap - len(zero))))
-            nxt = keep_rot + spread(zero, cap - len(keep_rot))
+            k_rot = min(n_rot, max(cap * 2 // 3, cap - n_zero))
+            pos_rot = spread_positions(n_rot, k_rot)
+            pos_zero = spread_positions(n_zero, cap - len(pos_rot))
+            agg["capped"] += total - len(pos_rot) - len(pos_zero)
+        else:
+            pos_rot, pos_zero = list(range(n_rot)), list(range(n_zero))
+        nxt = pick(rot, pos_rot) + pick(zero, pos_zero)
         frontier = nxt
         if not frontier:
             break
